@@ -33,15 +33,27 @@ def main():
     detf = os.path.join(S, "detection.json")
     det = json.load(open(detf)) if os.path.exists(detf) else {}
     env = dict(os.environ, VERIF_REPO=WT, VERIF_HARNESS=HS, VERIF_OUT=OUT)
+    # a change seeded for one property may surface through the check of a related one
+    RELATED = {"C07": ["C07", "C03", "C02"], "C05": ["C05", "C03"], "C06": ["C06", "C09"], "C08": ["C08"], "C09": ["C09", "C06"], "C12": ["C12", "C09"],
+               "C19": ["C19", "C02", "C03"], "C13": ["C13", "C02"], "C18": ["C18"], "C14": ["C14"], "C15": ["C15"], "C16": ["C16"], "C20": ["C20"]}
     for d in want:
-        prop = d.split("-")[0]
-        if prop not in check.RUNNERS:
-            continue
+        prop0 = d.split("-")[0]
+        for prop in RELATED.get(prop0, [prop0]):
+            if prop in check.RUNNERS:
+                run_one(d, prop, det, detf, env)
+            if det.get(d, {}).get("status") == "caught":
+                break
+    sh(f"git -C /repo worktree remove --force {WT}")
+    shutil.rmtree(OUT, ignore_errors=True)
+
+
+def run_one(d, prop, det, detf, env):
+    if True:
         sh(f"git -C {WT} checkout -q -- . && git -C {WT} clean -fdq src")
         a = sh(f"git -C {WT} apply {S}/{d}/patch.diff")
         if a.returncode:
             det[d] = {"status": "patch does not apply", "detail": a.stdout[-300:]}
-            continue
+            return
         t0 = time.time()
         shutil.rmtree(OUT, ignore_errors=True)
         os.makedirs(OUT)
@@ -53,8 +65,6 @@ def main():
                   "first": (first.group(1).strip()[:300] + " | " + first.group(2).strip()[:300]) if first else r.stdout[-300:] if r.returncode not in (0, 1) else ""}
         print(d, det[d]["status"], nv, f"{det[d]['wall_s']}s", flush=True)
         json.dump(det, open(detf, "w"), indent=1, sort_keys=True)
-    sh(f"git -C /repo worktree remove --force {WT}")
-    shutil.rmtree(OUT, ignore_errors=True)
 
 
 if __name__ == "__main__":
